@@ -63,7 +63,12 @@ def three_way(rep, drv, ops, label, fuel=4000, skip_ref_ops=()):
     ref = ref[1:]
     comp = comp[1:]
     verdict = 'ok'
-    for i, op in enumerate(ops):
+    flat_ops = []
+    for op in ops:
+        flat_ops.append(op)
+        if op[0] == 'query_load':
+            flat_ops.append(('load-after-suspended-query',))
+    for i, op in enumerate(flat_ops):
         r, f, c = norm(real[i]), norm(ref[i]), norm(comp[i])
         if 'oof' in f or 'oof' in c:
             # out of fuel in the model / unspecified depth: later operations may see other side effects
